@@ -36,6 +36,10 @@ class Hang(BaseException):
     pass
 
 
+HANGS = [0]          # calls that exceeded the wall-clock bound in this worker
+MAX_HANGS = 3        # after that many the rest of the batch is skipped (reported as such)
+
+
 def _alarm(signum, frame):
     raise Hang()
 
@@ -50,6 +54,7 @@ def bounded(seconds, fn, *args, **kw):
         v = fn(*args, **kw)
         return "ok", v
     except Hang:
+        HANGS[0] += 1
         return "hang", None
     except Exception as e:  # noqa: BLE001 - classification is the point
         return "exc", e
@@ -184,6 +189,57 @@ def cgraph(g) -> str:
     raise TypeError(f"unknown graph node {type(g)}")
 
 
+# ---------------------------------------------------------------- canonical text / hash of a graph
+# must be the same format as show_graph / hash_string in coq/model/Graphs.v
+def show_tref(t) -> str:
+    num, _, nm = t.id.partition("_")
+    if nm != t.name or not num.isdigit():
+        raise ValueError(f"unexpected tensor id {t.id!r} for {t.name!r}")
+    return (f"{int(num)}:{t.name}(" + "".join(i + "," for i in t.indexes) + ")["
+            + "".join("d" if m.name == "dense" else "s" for m in t.modes) + "]")
+
+
+def show_iexpr(e) -> str:
+    from tensora.iteration_graph.identifiable_expression import ast as ie
+
+    match e:
+        case ie.Integer(value=v):
+            return f"Z{int(v)}"
+        case ie.Float(value=v):
+            return "F" + float(v).hex()
+        case ie.Tensor():
+            return "V" + show_tref(e)
+        case ie.Add(left=l, right=r):
+            return f"A({show_iexpr(l)},{show_iexpr(r)})"
+        case ie.Multiply(left=l, right=r):
+            return f"M({show_iexpr(l)},{show_iexpr(r)})"
+    raise TypeError(f"unknown identifiable node {type(e)}")
+
+
+def show_graph(g) -> str:
+    from tensora.iteration_graph import iteration_graph as ig
+
+    match g:
+        case ig.TerminalNode(expression=e):
+            return f"T({show_iexpr(e)})"
+        case ig.IterationNode(index_variable=i, output=o, next=n):
+            out = "N" if o is None else f"L{int(o.layer)}:{show_tref(o.tensor)}"
+            return f"I({i},{out},{show_graph(n)})"
+        case ig.SumNode(name=_, terms=ts):
+            return "S[" + "".join(show_graph(t) + ";" for t in ts) + "]"
+    raise TypeError(f"unknown graph node {type(g)}")
+
+
+HASH_MOD = (1 << 61) - 1
+
+
+def hash_string(s: str) -> int:
+    h = 7
+    for c in s.encode("latin-1", "replace"):
+        h = (h * 1000003 + c + 1) % HASH_MOD
+    return h
+
+
 # ------------------------------------------------------------------------------------- tool chain
 _HEADER = None
 
@@ -261,6 +317,10 @@ def run_case(case: dict, T: float) -> dict:
     from tensora.problem import make_problem
 
     out: dict = {"id": case["id"], "assignment": case["assignment"], "formats": case["formats"]}
+    hangs_before = HANGS[0]
+
+    def hung_here():
+        return HANGS[0] > hangs_before
 
     # ---- request construction (Result-typed refusals are documented errors)
     st, pa = bounded(T, parse_assignment, case["assignment"])
@@ -297,7 +357,7 @@ def run_case(case: dict, T: float) -> dict:
             out["problem"] = "ok"
 
     # ---- CLI (also for refused requests: exit code 1 with a message, never a traceback)
-    if case.get("cli"):
+    if case.get("cli") and not hung_here():
         out["cli"] = run_cli(case, T)
 
     if problem is None:
@@ -319,6 +379,8 @@ def run_case(case: dict, T: float) -> dict:
     for lang in case["langs"]:
         for kinds in case["kinds_sets"]:
             key = "+".join(kinds) + "|" + lang
+            if hung_here():
+                continue
             r, code = gen_one(problem, kinds, lang, T)
             if code is not None:
                 codes[key] = code
@@ -335,7 +397,7 @@ def run_case(case: dict, T: float) -> dict:
             key = k + "|c"
             if key in codes:
                 singles[k] = codes[key]
-            elif key not in gen:
+            elif key not in gen and not hung_here():
                 r, code = gen_one(problem, [k], "c", T)
                 if code is not None:
                     singles[k] = code
@@ -354,6 +416,10 @@ def run_case(case: dict, T: float) -> dict:
         out["_c"] = {"singles": singles, "joins": joins, "plain": plain}
     out["gen"] = gen
 
+    if hung_here():
+        out["stopped_after_hang"] = True
+        return out
+
     # ---- tensor_method
     if case.get("tm"):
         out["tm"] = run_tm(case, "llvm", T)
@@ -361,7 +427,7 @@ def run_case(case: dict, T: float) -> dict:
         out["tm_cffi"] = run_tm(case, "cffi", max(T, 60))
 
     # ---- CLI stdout must be the library's output
-    if case.get("cli") and out["cli"].get("exit_code") == 0:
+    if case.get("cli") and "cli" in out and out["cli"].get("exit_code") == 0:
         key = out["cli"]["key"]
         if key in codes:
             out["cli"]["same_as_library"] = out["cli"].pop("stdout") == codes[key] + "\n"
@@ -370,7 +436,7 @@ def run_case(case: dict, T: float) -> dict:
     if "cli" in out:
         out["cli"].pop("stdout", None)
 
-    # ---- graphs
+    # ---- graphs (canonical text hashed; the model prints the same hashes)
     mode = case.get("graph", "none")
     if mode != "none":
         from tensora.desugar import DiagonalAccessError, best_algorithm
@@ -380,13 +446,15 @@ def run_case(case: dict, T: float) -> dict:
         if st == "ok":
             match r:
                 case Success(g):
-                    out["graph_first"] = "(GFirst " + cgraph(g) + ")"
+                    text = show_graph(g)
+                    out["graph_first"] = hash_string(text)
+                    out["graph_first_text"] = text[:600]
                 case Failure(err):
-                    out["graph_first"] = "GDiagonal" if isinstance(err, DiagonalAccessError) else "GNone"
+                    out["graph_first"] = "Diagonal" if isinstance(err, DiagonalAccessError) else "NoKernel"
         else:
             out["graph_first"] = "ERR:" + ("Hang" if st == "hang" else classify_exc(r))
         if mode == "all":
-            cap = case.get("graph_cap", 300)
+            cap = case.get("graph_cap", 40)
 
             def all_graphs():
                 return list(itertools.islice(to_iteration_graphs(desugared, problem.formats), cap + 1))
@@ -394,12 +462,12 @@ def run_case(case: dict, T: float) -> dict:
             st, r = bounded(max(T, 20), all_graphs)
             if st == "ok":
                 if len(r) <= cap:
-                    out["graphs_all"] = "(GAll " + clist(cgraph(g) for g in r) + ")"
+                    out["graphs_all"] = [hash_string(show_graph(g)) for g in r]
                     out["graphs_n"] = len(r)
                 else:
                     out["graphs_n"] = -1
             elif st == "exc" and isinstance(r, DiagonalAccessError):
-                out["graphs_all"] = "GAllDiagonal"
+                out["graphs_all"] = "Diagonal"
                 out["graphs_n"] = 0
             else:
                 out["graphs_all"] = "ERR:" + ("Hang" if st == "hang" else classify_exc(r))
@@ -514,7 +582,8 @@ def resolve_c_checks(results: list[dict], chunk: int = 24):
             whole = gcc_check(tu_of(c["singles"]))
             if whole["ok"]:
                 per_kind = {k: good for k in c["singles"]}
-            elif len(c["singles"]) == 1:
+            elif len(c["singles"]) == 1 or all(set(ks) == set(c["singles"]) for ks in c["joins"].values()):
+                # every requested list uses all the parts: the answer for the whole is the answer
                 per_kind = {k: whole for k in c["singles"]}
             else:
                 per_kind = {k: gcc_check(c["singles"][k]) for k in c["singles"]}
@@ -536,6 +605,10 @@ def main():
     for case in req["cases"]:
         w.write(json.dumps({"progress": case["id"]}) + "\n")
         w.flush()
+        if HANGS[0] >= MAX_HANGS:
+            results.append({"id": case["id"], "assignment": case["assignment"], "formats": case["formats"],
+                            "skipped": "batch stopped after repeated hangs"})
+            continue
         try:
             r = run_case(case, T)
         except Hang:
